@@ -57,6 +57,7 @@ Uncached(call, arg, typ) ==
     [] call = "data"     -> "full"
     [] call = "rawimage" -> "partial"
     [] call = "image"    -> "full"
+    [] call = "rawdata"  -> "raw"
 
 -----------------------------------------------------------------------------
 (* Mech                                                                     *)
@@ -123,6 +124,14 @@ Image(s) ==
   /\ Rec("image", s, "-", IF Decode(s, "partial") = "partial" THEN "full" ELSE "bad")
   /\ UNCHANGED <<ocOn, scOn, tol, ocache>>
 
+\* PdfStream::raw_data (Resolve::stream_data): the undecoded bytes, read past the stream cache
+\* (deviation "raw_read_through_stream_cache": answered from and stored in the cache that goes by the object number)
+RawData(s) ==
+  /\ ncalls < MaxCalls
+  /\ IF "raw_read_through_stream_cache" \in Dev THEN Fill(s, "raw") ELSE UNCHANGED scache
+  /\ Rec("rawdata", s, "-", IF "raw_read_through_stream_cache" \in Dev /\ scOn /\ scache[s] # None THEN scache[s] ELSE "raw")
+  /\ UNCHANGED <<ocOn, scOn, tol, ocache>>
+
 Init ==
   /\ ocOn \in ObjCacheOpts /\ scOn \in StmCacheOpts /\ tol \in TolerantOpts
   /\ ocache = [o \in Objs |-> NoEntry]
@@ -134,7 +143,7 @@ Init ==
 Next ==
   \/ \E o \in Objs : \E t \in TypesOf[o] : GetAs(o, t)
   \/ \E o \in Objs : Resolve(o)
-  \/ \E s \in Streams : Data(s) \/ RawImage(s) \/ Image(s)
+  \/ \E s \in Streams : Data(s) \/ RawImage(s) \/ Image(s) \/ RawData(s)
 
 Spec == Init /\ [][Next]_vars
 
